@@ -43,11 +43,13 @@ def check(ctx):
     m = model(ctx.tree)
     ctx.saw(FILE, "TemplateLoader._prepare_ode_content")
     _r1(ctx, m)
-    _r2_r5(ctx, m)
-    _r3(ctx)
-    # dense / odeint decode of the flattened index (same (row, col) as the CSR arrays): shared with C02.R4
+    # dense / odeint decode of the flattened index (same (row, col) as the CSR arrays): shared with C02.R4; the sentinel literal the
+    # templates compare with is collected for R2
     from .c02 import _r4_templates
-    _r4_templates(ctx, rule_decode="R3", rule_omit="R2")
+    tsent = {}
+    _r4_templates(ctx, rule_decode="R3", rule_omit="R2", sent=tsent)
+    _r2_r5(ctx, m, tsent)
+    _r3(ctx)
     _r4(ctx)
     # who stores into the matrix, and at which index expression (per-system offset of the batched CSR block): shared with C02.R7
     from .c02 import jac_writers
@@ -125,6 +127,99 @@ def contains_carried(v, name):
     return any(isinstance(x, tuple) and x and x[0] == "carried" and x[1] == name for x in walk(v))
 
 
+_NEQ = ("n_eqns",)
+
+
+def _npoly(m, v):
+    """integer polynomial normal form (odemodel.poly) with every spelling of n_eqns as one atom"""
+    from ..odemodel import poly
+    out = {}
+    for k, c in poly(v).items():
+        k2 = tuple(sorted((_NEQ if (a == _NEQ or m.is_n_eqns(a)) else a for a in k), key=repr))
+        out[k2] = out.get(k2, 0) + c
+    return {k: c for k, c in out.items() if c}
+
+
+def _row_origin(m, lp):
+    """The row loop of the CSR scan by what it enumerates: -> (flat position of the row's first entry, every row visited once in
+    ascending order?, description) or None when the loop is not understood.
+       for row in range(N)                     first entry row * N          complete iff N is n_eqns
+       for start in range(0, N * N, N)         first entry start            complete iff N is n_eqns
+       for x in [g(row) for row in range(N)]   as the first form (the loop variable is g(row): a row slice cut by a helper, ..)"""
+    from ..valueflow import as_map
+    it = simp(lp.iter)
+    desc = show(it)
+    while it[0] == "call" and it[1] in (("global", "enumerate"), ("global", "list"), ("global", "tuple")) and len(it[2]) == 1 and not it[3]:
+        it = it[2][0]           # `for r, rowdata in enumerate(rows)`: the same rows, numbered
+    if it[0] == "comp":
+        mm = as_map(it)
+        if mm is None:
+            return None
+        if mm[3]:
+            return (("const", 0), False, "a filtered sequence of rows: " + desc)
+        it = simp(mm[2])
+    if not (it[0] == "call" and it[1] == ("global", "range") and not it[3]):
+        return None
+    var = ("elem", it, lp.id)
+    a = it[2]
+    if len(a) == 1:
+        return (("binop", "Mult", var, a[0]), m.is_n_eqns(a[0]), desc)
+    if len(a) == 3:
+        ok = a[0] == ("const", 0) and m.is_n_eqns(a[2]) and _npoly(m, a[1]) == {(_NEQ, _NEQ): 1}
+        return (var, ok, desc)
+    if len(a) == 2:
+        return (("binop", "Mult", var, a[1]), a[0] == ("const", 0) and m.is_n_eqns(a[1]), desc)
+    return None
+
+
+def _per_row_position_sets(ctx, m, W) -> bool:
+    """The CSR columns are read from per-row position sets (`cols = [set() for _ in range(n)]`, `cols[row].add(col)` recorded during
+    assembly, `for col in sorted(cols[row])` in the builder) instead of scanning the table.  Then the sparse matrix holds an entry
+    exactly where a position was recorded: every store into the Jacobian table needs a sibling `cols[<same row>].add(<same col>)` in
+    the same loops under the same guards.  -> True when this construction was recognised (obligations emitted)."""
+    fl = m.flow
+    recs = {}
+    for f in fl.facts:
+        if f.kind == "call" and f.target == "add" and f.value is not None:
+            v = simp(f.value)
+            if v[0] == "meth" and v[2] == "add" and len(v[3]) == 1 and not v[4] and v[1][0] == "sub":
+                recs.setdefault(v[1][1], []).append((simp(v[1][2]), simp(v[3][0]), f))
+    # the table the builder reads: sub(T, <row>) inside the iterable of a loop that encloses appends
+    used = []
+    for T in recs:
+        is_sets = T[0] == "comp" and T[2] in (("call", ("global", "set"), (), ()), ("set", ())) or T[0] == "acc"
+        reads = any(any(isinstance(x, tuple) and len(x) == 3 and x[0] == "sub" and x[1] == T for x in walk_(simp(lp.iter)))
+                    for f in fl.facts if f.kind == "append" for lp in f.loops)
+        if is_sets and reads:
+            used.append(T)
+    if len(used) != 1:
+        return False
+    T = used[0]
+    tname = show(T)[:40]
+    nsite = 0
+    for site in m.sites:
+        if site.array != "jacrhs" or site.kind not in ("loss", "gain", "mod", "heat", "cool"):
+            continue
+        d = m.decode_flat(simp(site.fact.index))
+        if d is None:
+            continue
+        nsite += 1
+        row, col = simp(d[0]), simp(d[1])
+        sib = [f for r, c, f in recs[T] if r == row and c == col and tuple(l.id for l in f.loops) == tuple(l.id for l in site.fact.loops)
+               and [(simp(g), p) for g, p in f.guards] == [(simp(g), p) for g, p in site.fact.guards]]
+        ctx.check(bool(sib), "R1", f"position record:{site.kind}@{site.fact.line}", (FILE, site.fact.line),
+                  f"the {site.kind} term's (row, column) is recorded in the per-row position sets" if sib else
+                  f"the {site.kind} site stores a term into the Jacobian table but does not record its column in the per-row position sets ({tname}..) from which the CSR "
+                  "arrays and NNZ are built: an entry that only this site contributes is assigned by the dense / odeint Jacobian and marked in the pattern file, but is "
+                  "not stored in the sparse matrix",
+                  expected="<sets>[row].add(col) next to the store", found="no matching record")
+    if not nsite:
+        return False
+    if not ctx.by("VIOLATION"):
+        ctx.unrec("R1", "csr-construction:from recorded positions", W, "the CSR arrays are built from recorded per-row position sets; beyond the pairing above the construction is not decided")
+    return True
+
+
 def _r1(ctx, m):
     fl = m.flow
     W = (FILE, m.func.lineno)
@@ -155,6 +250,8 @@ def _r1(ctx, m):
                 ctx.unrec("R1", "csr-construction:from recorded positions", W, "the CSR arrays are built from a recorded position set; beyond the pairing above the construction is not decided") \
                     if not ctx.by("VIOLATION") else None
                 return
+        if _per_row_position_sets(ctx, m, W):
+            return
         ctx.unrec("R1", "csr-construction", W, f"CSR construction not recognised (counter={counter}, lists={sorted(roles)})")
         return
     rows, cols, vals = roles["rows"], roles["cols"], roles["vals"]
@@ -183,14 +280,18 @@ def _r1(ctx, m):
     # the scan: `for row in range(n): for col in range(n): entry = table[row*n + col]`  or
     #           `for row in range(n): for col, entry in enumerate(table[row*n : (row+1)*n])`
     form = None
+    origin = None
     if len(scan) == 2:
-        it0, it1 = simp(scan[0].iter), simp(scan[1].iter)
-        if it0[0] == "call" and it0[1] == ("global", "range"):
+        origin = _row_origin(m, scan[0])
+        it1 = simp(scan[1].iter)
+        if origin is not None:
             if it1[0] == "call" and it1[1] == ("global", "range"):
                 form = "range"
             elif it1[0] == "call" and it1[1] == ("global", "enumerate") and len(it1[2]) == 1 and not it1[3] and it1[2][0][0] == "sub" \
                     and it1[2][0][1] == m.JAC and it1[2][0][2][0] == "slice":
                 form = "rowslice"
+    if form is None and _per_row_position_sets(ctx, m, W):
+        return
     if form is None:
         # restructured builder: the one obligation that is independent of the loop shape --
         # a row pointer must be emitted for every row, whatever the row contains
@@ -219,11 +320,9 @@ def _r1(ctx, m):
             ctx.unrec("R1", "csr-construction", W, "CSR builder is not the row loop x column loop form; cannot decide well-formedness")
         return
     rowloop, colloop = scan
-    rowvar = ("elem", simp(rowloop.iter), rowloop.id)
-    it = simp(rowloop.iter)
-    ok = len(it[2]) == 1 and not it[3] and m.is_n_eqns(it[2][0])
-    ctx.check(ok, "R1", "row-loop", (FILE, rowloop.line), f"row loop is `for {rowloop.target} in range(n_eqns)` (ascending, complete)",
-              expected="range(n_eqns)", found=show(it)[:100])
+    rowstart, complete, found_rows = origin
+    ctx.check(complete, "R1", "row-loop", (FILE, rowloop.line), f"the row loop `for {rowloop.target} in ..` visits every row 0 .. n_eqns-1 once, ascending",
+              expected="range(n_eqns)  /  range(0, n_eqns*n_eqns, n_eqns)  /  one item per element of range(n_eqns)", found=found_rows[:100])
     it = simp(colloop.iter)
     if form == "range":
         ok = len(it[2]) == 1 and not it[3] and m.is_n_eqns(it[2][0])
@@ -232,9 +331,10 @@ def _r1(ctx, m):
         colvar = ("elem", it, colloop.id)
         entry = None            # from the guard, below
     else:
-        from ..odemodel import row_slice
         seq = it[2][0]
-        ok = row_slice(m, seq[2], rowvar)
+        sl = seq[2]
+        lo = {} if sl[1] == ("const", None) else _npoly(m, sl[1])
+        ok = sl[3] == ("const", None) and sl[2] != ("const", None) and lo == _npoly(m, rowstart) and _npoly(m, sl[2]) == _npoly(m, ("binop", "Add", rowstart, _NEQ))
         ctx.check(bool(ok), "R1", "col-loop", (FILE, colloop.line),
                   f"col loop enumerates the row's slice jacrhs[row*n_eqns : (row+1)*n_eqns] (ascending, complete; position in the slice = column)",
                   expected="enumerate(jacrhs[row*n_eqns : (row+1)*n_eqns])", found=show(it)[:120])
@@ -246,14 +346,19 @@ def _r1(ctx, m):
     others = [f for f in rows if f not in inrow and f not in tail]
     first_col_fact = min(f.seq for f in fl.facts if colloop in f.loops)
     last_loop_fact = max(f.seq for f in fl.facts if rowloop in f.loops)
-    ok = len(inrow) == 1 and not inrow[0].guards and inrow[0].seq < first_col_fact and not others
+    # the same pointers written the other way round: the list starts as [0] and every row appends the running count AFTER its columns
+    # (no separate final append) -- [0, c1, .., nnz] either way
+    last_col_fact = max(f.seq for f in fl.facts if colloop in f.loops)
+    rows_init = [simp(f.value) for f in fl.facts if f.kind == "init" and f.target in names["rows"]]
+    trailing = rows_init == [("list", (("const", 0),))] and len(inrow) == 1 and not tail and not others and not inrow[0].guards and inrow[0].seq > last_col_fact
+    ok = trailing or (len(inrow) == 1 and not inrow[0].guards and inrow[0].seq < first_col_fact and not others)
     ctx.check(ok, "R1", "rowptr-before-columns", (FILE, inrow[0].line if inrow else rowloop.line),
               "each row appends the running count to the row pointers before its columns are visited, unconditionally",
               expected="rows.append(nnz) as first statement of the row loop",
               found=f"{len(inrow)} in-row appends" + (f" (guards: {[show(g) for g, _ in inrow[0].guards]}, after column loop: {inrow[0].seq > first_col_fact})" if inrow else "")
               + (f", {len(others)} appends elsewhere (lines {[f.line for f in others]})" if others else ""))
-    ok = len(tail) == 1 and not tail[0].guards and tail[0].seq > last_loop_fact
-    if ok and counter is None:
+    ok = trailing or (len(tail) == 1 and not tail[0].guards and tail[0].seq > last_loop_fact)
+    if ok and counter is None and not trailing:
         # len(<list>) is the final count only if it is evaluated after the loops
         ok = _evaluated_after(fl, simp(tail[0].value), tail[0].seq, last_loop_fact)
     ctx.check(ok, "R1", "rowptr-final", (FILE, tail[0].line if tail else rowloop.line),
@@ -276,14 +381,23 @@ def _r1(ctx, m):
                 guard_ok = True
             if guard_ok:
                 ctx.stats["csr_sentinel"] = b["lit"][1]
-    ctx.check(same_loops and guard_ok, "R1", "single-guard", (FILE, c.line),
-              "cols.append, vals.append and the increment sit together under the single guard `entry != sentinel`",
-              expected="if elem != '0.0': cols.append(col); vals.append(elem); nnz += 1",
-              found="; ".join("&".join(("" if p else "not ") + show(x)[:60] for x, p in gg) or "<unguarded>" for gg in g))
+    # positive evidence of a wrong filter: the appends do not sit together, are unguarded, or test the entry against something else
+    # than a constant; a test on a value that is not traced to the Jacobian table is "cannot decide"
+    traced = True
+    if same_loops and not guard_ok and all(x == g[0] for x in g) and len(g[0]) == 1:
+        b_ = match(("cmp", (V("op"),), (V("e"), V("lit"))), g[0][0][0])
+        if b_ and b_["lit"][0] == "const" and not any(x == m.JAC for x in walk_(b_["e"])):
+            traced = False
+    if not traced:
+        ctx.unrec("R1", "single-guard", (FILE, c.line), f"the stored entries are filtered by a test on `{show(g[0][0][0])[:100]}`, which is not traced to the Jacobian table {m.JACNAME}")
+    else:
+        ctx.check(same_loops and guard_ok, "R1", "single-guard", (FILE, c.line),
+                  "cols.append, vals.append and the increment sit together under the single guard `entry != sentinel`",
+                  expected="if elem != '0.0': cols.append(col); vals.append(elem); nnz += 1",
+                  found="; ".join("&".join(("" if p else "not ") + show(x)[:60] for x, p in gg) or "<unguarded>" for gg in g))
     if guard_ok:
         if form == "range":
-            d = m.decode_flat(slot_idx)
-            ok = bool(d) and d[0] == rowvar and d[1] == colvar
+            ok = _npoly(m, slot_idx) == _npoly(m, ("binop", "Add", rowstart, colvar))
             ctx.check(ok, "R1", "entry-index", (FILE, c.line), "the tested entry is jacrhs[row*n_eqns + col] of the two loop variables",
                       found=show(slot_idx)[:120])
         else:
@@ -301,8 +415,9 @@ def _r1(ctx, m):
               "the CSR lists are only initialised empty and appended to", found="; ".join(f"{f.kind}@{f.line}" for f in extra))
     for nm in sorted(allnames):
         ini = [f for f in fl.facts if f.kind == "init" and f.target == nm]
-        ctx.check(len(ini) == 1 and ini[0].value == ("list", ()) and not ini[0].loops, "R1", f"init:{nm}", (FILE, ini[0].line if ini else m.func.lineno),
-                  f"`{nm}` starts as the empty list, once", found="; ".join(show(f.value) for f in ini))
+        empty = ("list", (("const", 0),)) if (trailing and nm in names["rows"]) else ("list", ())
+        ctx.check(len(ini) == 1 and simp(ini[0].value) == empty and not ini[0].loops, "R1", f"init:{nm}", (FILE, ini[0].line if ini else m.func.lineno),
+                  f"`{nm}` starts as the empty list, once" if empty == ("list", ()) else f"`{nm}` starts as [0], once", found="; ".join(show(f.value) for f in ini))
 
 
 def _evaluated_after(fl, v, use_seq, after_seq):
@@ -316,7 +431,7 @@ def _evaluated_after(fl, v, use_seq, after_seq):
 
 # ------------------------------------------------------------------ R2 + R5
 
-def _r2_r5(ctx, m):
+def _r2_r5(ctx, m, tsent=()):
     pkg = package(ctx.tree)
     sent = {}
     fl = m.flow
@@ -340,16 +455,15 @@ def _r2_r5(ctx, m):
                         sent[("thermal wrap kept value", FILE, s.line)] = gc[2][1][1]
     if "csr_sentinel" in ctx.stats:
         sent[("CSR filter", FILE, m.func.lineno)] = ctx.stats["csr_sentinel"]
-    for label, rel, cfg in (("dense template", JAC, {"general.method": "dense"}), ("odeint template", ODEINT, {})):
-        for it, st in J.walk_items(J.flatten(ctx.tree, rel, cfg)):
-            if it[0] == "for" and J.path(it[2]) == "ode.jac.rhs":
-                for x, st2 in J.walk_items(it[3]):
-                    if x[0] == "if" and x[1][0] == "cmp" and x[1][1] == it[1]:
-                        sent[(label, rel, x[4])] = x[1][2][0][1][1] if x[1][2][0][1][0] == "const" else None
+    sent.update(tsent)       # the literal the dense / odeint templates compare an entry with (c02.dense_layout, any spelling of the test)
     # pattern writer
     fn = pkg.method("TemplateLoader", "render")
     ctx.saw(FILE, "TemplateLoader.render")
-    rf = Flow(fn, FILE)
+    # a helper method that returns the text / the rows / the marks is read as the value it returns
+    from ..odemodel import pure_helper_resolver, inline_constants
+    import copy as _copy
+    fn = inline_constants(_copy.deepcopy(fn), pkg, "TemplateLoader")     # a sentinel kept in a named module / class constant is that literal
+    rf = Flow(fn, FILE, resolver=pure_helper_resolver(pkg, "TemplateLoader"))
     _pattern_writer(ctx, rf, fn, sent)
     # R2 verdict
     W = (FILE, m.func.lineno)
@@ -368,7 +482,7 @@ def _pattern_writer(ctx, rf, fn, sent):
     from ..odemodel import poly
     from ..valueflow import as_map
     W = (FILE, fn.lineno)
-    writes = [f for f in rf.facts if f.kind == "call" and f.target == "write" and f.value and "jac_pattern.dat" in show(f.value[1]) and f.value[3]]
+    writes = [f for f in rf.facts if f.kind == "call" and f.target in ("write", "write_text") and f.value and "jac_pattern.dat" in show(f.value[1]) and f.value[3]]
     if len(writes) != 1 or not any("jac_pattern" in show(g) for g, _ in writes[0].guards):
         ctx.missing("R5", "pattern-writer", W, "jac_pattern branch of TemplateLoader.render (one write to jac_pattern.dat under `if jac_pattern`) not found")
         return
@@ -487,7 +601,8 @@ def _pattern_writer(ctx, rf, fn, sent):
 
 def _loop_sites(ctx, label, rel, cfg, fname, field, lhs_pat):
     """In function `fname`: exactly one loop writes `lhs[ <index> ] = {{ entry }}`; it must iterate ode.jac.<field>."""
-    items = J.propagate_sets(J.flatten(ctx.tree, rel, cfg))      # `{% set %}` variables read as the expressions they stand for
+    # `{% set %}` variables read as the expressions they stand for, index arithmetic in canonical form (`loop.index - 1` = `loop.index0`)
+    items = J.canon_items(J.propagate_sets(J.flatten(ctx.tree, rel, cfg)))
     sk = Skel(items)
     key = f"{label}:{fname}:ode.jac.{field}"
     hits = []
@@ -503,15 +618,34 @@ def _loop_sites(ctx, label, rel, cfg, fname, field, lhs_pat):
         (ctx.bad if hits else ctx.missing)("R3", key, (rel, 0), f"{fname} has {len(hits)} loops writing {lhs_pat.split('[')[0].strip(chr(92))}[..], expected one")
         return
     it, flat, mm = hits[0]
-    if J.path(J.unfilter(it[2])[0]) != f"ode.jac.{field}" or it[2][0] != "attr" or it[7] is not None:
-        ctx.bad("R3", key, (rel, it[5]), f"the loop filling this array iterates {J.show(it[2])}, not ode.jac.{field} itself",
-                expected=f"for x in ode.jac.{field}", found=J.show(it[2]))
+    FIELD = ("attr", ("attr", ("name", "ode"), "jac"), field)
+    if it[2] == ("call", ("name", "range"), (("filter", "length", FIELD, (), ()),), ()) and it[7] is None and it[1][0] == "name":
+        # index loop `for i in range(ode.jac.<field> | length)`: position i receives ode.jac.<field>[i]
+        idx = flat[int(mm.group(1))][1]
+        base, fs = J.unfilter(flat[int(mm.group(2))][1])
+        ok = idx == it[1] and base == ("item", FIELD, it[1]) and all(f[0] in ("stmwrap",) or (f[0] == "replace" and field == "vals") for f in fs)
+        ctx.check(ok, "R3", key, (rel, it[5]), f"entry n of ode.jac.{field} is written to position n (index loop over its length), unfiltered",
+                  expected=f"[i] = ode.jac.{field}[i]", found=f"[{J.show(idx)}] = {J.show(flat[int(mm.group(2))][1])}")
+        return
+    var = it[1]
+    if it[2][0] == "call" and it[2][1] == ("name", "zip") and not it[2][3] and FIELD in it[2][2] and it[7] is None and it[1][0] == "tuple" \
+            and len(it[1][1]) == len(it[2][2]) and all(a_[0] == "attr" for a_ in it[2][2]):
+        # `for col, val in zip(ode.jac.cols, ode.jac.vals)`: one loop filling several arrays; each target walks its own sequence in step
+        var = it[1][1][it[2][2].index(FIELD)]
+    elif J.path(J.unfilter(it[2])[0]) != f"ode.jac.{field}" or it[2][0] != "attr" or it[7] is not None:
+        root = it[2]
+        while root[0] in ("filter", "item"):
+            root = root[2] if root[0] == "filter" else root[1]
+        # positive evidence: the array is filled from ANOTHER field of the Jacobian, or from a filtered / sliced view of its own
+        (ctx.bad if (J.path(root) or "").startswith("ode.jac.") else ctx.unrec)(
+            "R3", key, (rel, it[5]), f"the loop filling this array iterates {J.show(it[2])}, not ode.jac.{field} itself",
+            **({"expected": f"for x in ode.jac.{field}", "found": J.show(it[2])} if (J.path(root) or "").startswith("ode.jac.") else {}))
         return
     idx = flat[int(mm.group(1))][1]
     val = flat[int(mm.group(2))][1]
     base, fs = J.unfilter(val)
     ok_idx = idx == ("attr", ("name", "loop"), "index0")
-    ok_val = base == it[1] and all(f[0] in ("stmwrap",) or (f[0] == "replace" and field == "vals") for f in fs)
+    ok_val = base == var and all(f[0] in ("stmwrap",) or (f[0] == "replace" and field == "vals") for f in fs)
     ctx.check(ok_idx and ok_val, "R3", key, (rel, it[5]),
               f"entry n of ode.jac.{field} is written to position n (loop.index0), unfiltered",
               expected="[loop.index0] = entry", found=f"[{J.show(idx)}] = {J.show(val)}")
@@ -535,35 +669,79 @@ def _r3(ctx):
     _loop_sites(ctx, "cvode/sparse", JAC, sp, "Jac", "cols", r"colvals\s*\[\s*\x00(\d+)\x00\s*\]")
     _loop_sites(ctx, "cvode/sparse", JAC, sp, "Jac", "vals", r"data\s*\[\s*\x00(\d+)\x00\s*\]")
     _loop_sites(ctx, "cvode/cusparse", JAC, cu, "JacKernel", "vals", r"data\s*\[\s*jistart\s*\+\s*\x00(\d+)\x00\s*\]")
-    # cusparse InitJac: initialiser lists are the whole rows / cols sequences
-    items = J.propagate_sets(J.flatten(ctx.tree, JAC, cu))
+    # cusparse InitJac: the initialiser list of each array is the whole rows / cols sequence -- looked up by ROLE: what stands between the
+    # braces of `int rowptrs[..] = { .. };` / `int colvals[..] = { .. };`, as one `| join(", ")` output or as a loop printing every
+    # element with a separator between two of them
+    from ..cskel import match_brace
+    items = J.canon_items(J.propagate_sets(J.flatten(ctx.tree, JAC, cu)))
     sk = Skel(items)
-    outs = [it for it, off in sk.items_in("InitJac") if it[0] == "out"]
-    got = {}
-    for o in outs:
-        base, fs = J.unfilter(o[1])
-        p = J.path(base)
-        names = [f[0] for f in fs]
-        if p in ("ode.jac.rows", "ode.jac.cols"):
+    fs_ = sk.func("InitJac")
+    if not fs_:
+        ctx.missing("R3", "cvode/cusparse:InitJac", (JAC, 0), "function InitJac not found in the cusparse slice")
+        return
+    fn_ = fs_[0]
+    placed = [(it, off) for it, off in sk.items_in("InitJac") if it[0] in ("out", "for", "if")]
+    nested = {id(x) for it, _ in placed if it[0] in ("for", "if") for x, _ in J.walk_items(it[3] if it[0] == "for" else it[2] + it[3])}
+    idx0 = ("attr", ("name", "loop"), "index0")
+    for p, arr in (("ode.jac.rows", "rowptrs"), ("ode.jac.cols", "colvals")):
+        key = f"cvode/cusparse:InitJac:{p}"
+        FIELD = ("attr", ("attr", ("name", "ode"), "jac"), p.split(".")[-1])
+        md = re.search(r"\bint\s+" + arr + r"\s*\[[^\]]*\]\s*=\s*\{", sk.clean[fn_.start:fn_.end])
+        if not md:
+            ctx.missing("R3", key, (JAC, 0), f"InitJac does not declare `int {arr}[..] = {{ .. }}`")
+            continue
+        lo = fn_.start + md.end() - 1
+        hi = match_brace(sk.clean, lo)
+        inside = [it for it, off in placed if lo <= off < hi and id(it) not in nested]
+        if len(inside) != 1:
+            (ctx.unrec if inside else ctx.missing)("R3", key, (JAC, 0), f"the initialiser of {arr} holds {len(inside)} template items, expected one output or one loop")
+            continue
+        it = inside[0]
+        if it[0] == "out":
+            base, fs = J.unfilter(it[1])
+            names = [f[0] for f in fs]
             # `join` applies str() to every element itself: a preceding map('string') is optional
             if fs and fs[0][0] == "map" and fs[0][1] == (("const", "string"),) and not fs[0][2]:
                 names = names[1:]
-            good = names[:1] == ["join"] and all(n == "stmwrap" for n in names[1:])
-            got[p] = (good, o)
-    for p, arr in (("ode.jac.rows", "rowptrs"), ("ode.jac.cols", "colvals")):
-        if p not in got:
-            ctx.missing("R3", f"cvode/cusparse:InitJac:{p}", (JAC, 0), f"InitJac does not output {p}")
+            if base != FIELD and J.path(base) in ("ode.jac.rows", "ode.jac.cols", "ode.jac.vals", "ode.jac.rhs"):
+                ctx.bad("R3", "cvode/cusparse:InitJac:binding", (JAC, it[2]), f"{arr} is initialised from {J.show(base)}, not from {p}", expected=p, found=J.show(base))
+                continue
+            good = base == FIELD and names[:1] == ["join"] and all(n == "stmwrap" for n in names[1:])
+            ctx.check(good, "R3", key, (JAC, it[2]), f"{arr} initialiser is the complete {p} sequence joined by ', '", found=J.show(it[1]))
+        elif it[0] == "for":
+            root = it[2]
+            while root[0] in ("filter", "item"):
+                root = root[2] if root[0] == "filter" else root[1]
+            if (it[2] != FIELD or it[7] is not None) and J.path(root) in ("ode.jac.rows", "ode.jac.cols", "ode.jac.vals", "ode.jac.rhs"):
+                (ctx.bad)("R3", "cvode/cusparse:InitJac:binding" if J.path(root) != p else key, (JAC, it[5]),
+                          f"{arr} is initialised by a loop over {J.show(it[2])}, not over the complete {p}", expected=p, found=J.show(it[2]))
+                continue
+            body = list(J.walk_items(it[3]))
+            outs = [(x, st) for x, st in body if x[0] == "out"]
+            elem_ok = it[2] == FIELD and it[7] is None and outs and not outs[0][1] and J.unfilter(outs[0][0][1])[0] == it[1] \
+                and all(f[0] in ("string", "int", "stmwrap") for f in J.unfilter(outs[0][0][1])[1])
+            # the separator: printed between two elements, i.e. for every element but the last (or but the first)
+            last = ("attr", ("name", "loop"), "last")
+            first = ("attr", ("name", "loop"), "first")
+            sep_ok = False
+            rest = outs[1:]
+            seps = [x for x, st in body if x[0] == "text" and "," in x[1]]
+            if len(rest) == 1 and not seps and rest[0][0][1][0] == "cond":
+                c, a_, b_ = rest[0][0][1][1:4]
+                t, pol = J.canon_test(c)
+                b_ = b_ if b_ is not None else ("const", "")
+                with_sep, without = (a_, b_) if not pol else (b_, a_)       # value when `t` is false / true
+                sep_ok = t == last and with_sep[0] == "const" and "," in str(with_sep[1]) and without[0] == "const" and "," not in str(without[1])
+            elif not rest and len(seps) == 1:
+                st = next(st_ for x, st_ in body if x is seps[0])
+                gs = [J.canon_test(g[1], g[0] == "if+") for g in st if g[0] in ("if+", "if-")]
+                sep_ok = len(gs) == 1 and gs[0] in ((last, False), (first, False))
+            if elem_ok and sep_ok:
+                ctx.ok("R3", key, (JAC, it[5]), f"{arr} initialiser prints every element of {p}, separated by ', '")
+            else:
+                ctx.unrec("R3", key, (JAC, it[5]), f"the loop that prints the initialiser of {arr} is not understood (element / separator)")
         else:
-            good, o = got[p]
-            ctx.check(good, "R3", f"cvode/cusparse:InitJac:{p}", (JAC, o[2]), f"{arr} initialiser is the complete {p} sequence joined by ', '",
-                      found=J.show(o[1]))
-    body = sk.plain(sk.func("InitJac")[0].body) if sk.func("InitJac") else ""
-    mm = re.search(r"int\s+rowptrs\s*\[[^\]]*\]\s*=\s*\{\s*__HOLE__\s*\}\s*;.*int\s+colvals\s*\[[^\]]*\]\s*=\s*\{\s*__HOLE__\s*\}\s*;", body, re.S)
-    ctx.check(bool(mm), "R3", "cvode/cusparse:InitJac:order", (JAC, 0), "rowptrs is initialised from the first output and colvals from the second")
-    if mm:
-        order = [J.path(J.unfilter(o[1])[0]) for o in outs if J.path(J.unfilter(o[1])[0]) in ("ode.jac.rows", "ode.jac.cols")]
-        ctx.check(order == ["ode.jac.rows", "ode.jac.cols"], "R3", "cvode/cusparse:InitJac:binding", (JAC, 0),
-                  "rowptrs <- ode.jac.rows, colvals <- ode.jac.cols", found=str(order))
+            ctx.unrec("R3", key, (JAC, it[4]), f"the initialiser of {arr} is conditional")
 
 
 # ------------------------------------------------------------------ R4
@@ -597,9 +775,24 @@ def _r4_reactions(ctx):
         if fn is None:
             continue
         for c in _ast.walk(fn):
-            if isinstance(c, _ast.Call) and _ast.unparse(c.func) == "NetworkInfo" and len(c.args) >= 3:
-                src = " ".join(_ast.unparse(c.args[2]).split())
+            if isinstance(c, _ast.Call) and _ast.unparse(c.func) == "NetworkInfo" and not any(isinstance(a_, _ast.Starred) for a_ in c.args):
+                from .c02 import dataclass_fields
+                bound = dict(zip(dataclass_fields(pkg, "NetworkInfo"), c.args))
+                bound.update({k_.arg: k_.value for k_ in c.keywords if k_.arg})
+                arg = bound.get("reactions")
+                if arg is None:
+                    continue
+                if isinstance(arg, _ast.Name):
+                    # a local bound once stands for the expression it was bound to
+                    once = [st.value for st in _ast.walk(fn) if isinstance(st, _ast.Assign) and len(st.targets) == 1 and isinstance(st.targets[0], _ast.Name)
+                            and st.targets[0].id == arg.id]
+                    arg = once[0] if len(once) == 1 else arg
+                src = " ".join(_ast.unparse(arg).split())
                 good = src == "network.reactions" or src.startswith("network.reactions or [Reaction(")
+                if not good and not src.startswith("network."):
+                    # not an attribute of the network at all: which list this is cannot be told from here
+                    ctx.unrec("R4", f"{cls}.{meth}:NetworkInfo.reactions", (file, c.lineno), f"NetworkInfo.reactions receives `{src[:80]}`: not read as an attribute of the network")
+                    continue
                 ctx.check(good, "R4", f"{cls}.{meth}:NetworkInfo.reactions", (file, c.lineno),
                           "the reactions the templates count are network.reactions (dummy reaction included for the empty network)" if good else
                           "NetworkInfo.reactions is not network.reactions: NREACTIONS no longer counts the dummy reaction whose rate k[0] is still written",
@@ -611,7 +804,8 @@ def _r4(ctx):
     tree = ctx.tree
     # --- macro definitions
     ctx.saw(MACROS)
-    items = J.propagate_sets(J.flatten(tree, MACROS, {}))        # a size first bound to a `{% set %}` variable is still that expression
+    # a size first bound to a `{% set %}` variable is still that expression; `| count` is `| length`
+    items = J.canon_items(J.propagate_sets(J.flatten(tree, MACROS, {})))
     defs = {}
     prev = ""
     for it in items:
@@ -713,6 +907,19 @@ def _split_args(code, i):
 
 T = FILE
 MUTANTS = [
+    {"name": "initjac-colvals-from-rows", "file": JAC, "old": "        {{ ode.jac.cols | map('string') | join(\", \") | stmwrap(80, 8) }}\n",
+     "new": "        {{ ode.jac.rows | map('string') | join(\", \") | stmwrap(80, 8) }}\n", "rules": ["R3"]},
+    {"name": "initjac-colvals-loop-over-a-slice", "file": JAC, "old": "        {{ ode.jac.cols | map('string') | join(\", \") | stmwrap(80, 8) }}\n",
+     "new": "        {% for c in ode.jac.cols[1:] %}{{ c }}{{ \", \" if not loop.last else \"\" }}{% endfor %}\n", "rules": ["R3"]},
+    {"name": "rowptr-appended-after-each-row-but-starts-empty", "file": T, "old": '        nnz = 0\n\n        for row in range(n_eqns):\n            spjacrptr.append(nnz)\n            for col in range(n_eqns):\n                elem = jacrhs[row * n_eqns + col]\n                if elem != "0.0":\n                    spjaccval.append(col)\n                    spjacdata.append(f"{elem}")\n                    nnz += 1\n        spjacrptr.append(nnz)\n', "new": '        nnz = 0\n\n        for row in range(n_eqns):\n            for col in range(n_eqns):\n                elem = jacrhs[row * n_eqns + col]\n                if elem != "0.0":\n                    spjaccval.append(col)\n                    spjacdata.append(f"{elem}")\n                    nnz += 1\n            spjacrptr.append(nnz)\n', "rules": ["R1"]},
+    {"name": "sparse-colvals-index-loop-shifted", "file": JAC, "old": "    {% for col in ode.jac.cols -%}\n        colvals[{{ loop.index0 }}] = {{ col }};\n    {% endfor %}\n",
+     "new": "    {% for i in range(ode.jac.cols | length) -%}\n        colvals[{{ i }}] = {{ ode.jac.cols[i - 1] }};\n    {% endfor %}\n", "rules": ["R3"]},
+    {"name": "sentinel-class-constant-differs-from-the-table-cells", "edits": [
+        {"file": T, "old": "    @dataclass\n    class GeneralInfo:\n", "new": "    _ZERO = \"0\"\n\n    @dataclass\n    class GeneralInfo:\n"},
+        {"file": T, "old": "                if elem != \"0.0\":", "new": "                if elem != self._ZERO:"}], "rules": ["R2"]},
+    {'name': 'dense-filled-from-csr-with-row-cursor-advanced-by-if', 'file': JAC, 'old': '    {% for r in ode.jac.rhs -%}\n    {% set neqns = ode.jac.nrow -%}\n    {% if r != "0.0" -%}\n    IJth(jmatrix, {{ (loop.index0/neqns) | int }}, {{ loop.index0%neqns }}) = {{ r | stmwrap(80, 24)}};\n    {% endif -%}\n    {% endfor %}\n', 'new': '    {% set cur = namespace(row=0) -%}\n    {% for col, val in zip(ode.jac.cols, ode.jac.vals) -%}\n    {% if loop.index0 >= ode.jac.rows[cur.row + 1] -%}\n    {% set cur.row = cur.row + 1 -%}\n    {% endif -%}\n    IJth(jmatrix, {{ cur.row }}, {{ col }}) = {{ val | stmwrap(80, 24)}};\n    {% endfor %}\n', 'rules': ['R3']},
+    {'name': 'odeint-rows-by-batch-transposed', 'file': ODEINT, 'old': '    {% for r in ode.jac.rhs -%}\n    {% set neqns = ode.jac.nrow -%}\n    {% if r != "0.0" -%}\n    j({{ (loop.index0/neqns) | int }}, {{ loop.index0%neqns }}) = {{ r | stmwrap(80, 24)}};\n    {% endif -%}\n    {% endfor %}\n', 'new': '    {% for rowterms in ode.jac.rhs | batch(ode.jac.nrow) -%}\n    {% set irow = loop.index0 -%}\n    {% for r in rowterms -%}\n    {% if r != "0.0" -%}\n    j({{ loop.index0 }}, {{ irow }}) = {{ r | stmwrap(80, 24)}};\n    {% endif -%}\n    {% endfor -%}\n    {% endfor %}\n', 'rules': ['R3']},
+    {'name': 'csr-rows-by-start-offset-one-row-short', 'file': T, 'old': '        nnz = 0\n\n        for row in range(n_eqns):\n            spjacrptr.append(nnz)\n            for col in range(n_eqns):\n                elem = jacrhs[row * n_eqns + col]\n                if elem != "0.0":\n                    spjaccval.append(col)\n                    spjacdata.append(f"{elem}")\n                    nnz += 1\n        spjacrptr.append(nnz)\n', 'new': '        for rstart in range(0, n_eqns * n_eqns - n_eqns, n_eqns):\n            spjacrptr.append(len(spjacdata))\n            for col, elem in enumerate(jacrhs[rstart : rstart + n_eqns]):\n                if elem == "0.0":\n                    continue\n                spjaccval.append(col)\n                spjacdata.append(f"{elem}")\n        nnz = len(spjacdata)\n        spjacrptr.append(nnz)\n', 'rules': ['R1']},
     {"name": 'rowslice-one-column-short', "file": T, "old": '        nnz = 0\n\n        for row in range(n_eqns):\n            spjacrptr.append(nnz)\n            for col in range(n_eqns):\n                elem = jacrhs[row * n_eqns + col]\n                if elem != "0.0":\n                    spjaccval.append(col)\n                    spjacdata.append(f"{elem}")\n                    nnz += 1\n        spjacrptr.append(nnz)\n',
      "new": '        for row in range(n_eqns):\n            spjacrptr.append(len(spjacdata))\n            for col, elem in enumerate(jacrhs[row * n_eqns : (row + 1) * n_eqns - 1]):\n                if elem == "0.0":\n                    continue\n                spjaccval.append(col)\n                spjacdata.append(elem)\n        nnz = len(spjacdata)\n        spjacrptr.append(nnz)\n', "rules": ['R1']},
     {"name": "cusparse-kernel-drops-system-offset", "file": "naunet/templates/cvode/src/naunet_jac.cpp.j2", "old": "data[jistart + ", "new": "data[", "rules": ["R6"]},
@@ -737,6 +944,27 @@ MUTANTS = [
     {"name": "nequations-macro", "file": MACROS, "old": "#define NEQUATIONS (NSPECIES + THERMAL)", "new": "#define NEQUATIONS (NSPECIES)", "rules": ["R4"]},
 ]
 BENIGN = [
+    {"name": "initjac-colvals-printed-by-a-loop-with-separator", "file": JAC, "old": "        {{ ode.jac.cols | map('string') | join(\", \") | stmwrap(80, 8) }}\n",
+     "new": "        {% for c in ode.jac.cols %}{{ c }}{{ \", \" if not loop.last else \"\" }}{% endfor %}\n"},
+    {"name": "rowptr-starts-at-zero-appended-after-each-row", "edits": [
+        {"file": T, "old": '        spjacrptr = []\n', "new": '        spjacrptr = [0]\n'},
+        {"file": T, "old": '        nnz = 0\n\n        for row in range(n_eqns):\n            spjacrptr.append(nnz)\n            for col in range(n_eqns):\n                elem = jacrhs[row * n_eqns + col]\n                if elem != "0.0":\n                    spjaccval.append(col)\n                    spjacdata.append(f"{elem}")\n                    nnz += 1\n        spjacrptr.append(nnz)\n', "new": '        nnz = 0\n\n        for row in range(n_eqns):\n            for col in range(n_eqns):\n                elem = jacrhs[row * n_eqns + col]\n                if elem != "0.0":\n                    spjaccval.append(col)\n                    spjacdata.append(f"{elem}")\n                    nnz += 1\n            spjacrptr.append(nnz)\n'}]},
+    {"name": "sparse-colvals-by-index-loop", "file": JAC, "old": "    {% for col in ode.jac.cols -%}\n        colvals[{{ loop.index0 }}] = {{ col }};\n    {% endfor %}\n",
+     "new": "    {% for i in range(ode.jac.cols | length) -%}\n        colvals[{{ i }}] = {{ ode.jac.cols[i] }};\n    {% endfor %}\n"},
+    {"name": "csr-rows-enumerated-slices", "file": T, "old": '        nnz = 0\n\n        for row in range(n_eqns):\n            spjacrptr.append(nnz)\n            for col in range(n_eqns):\n                elem = jacrhs[row * n_eqns + col]\n                if elem != "0.0":\n                    spjaccval.append(col)\n                    spjacdata.append(f"{elem}")\n                    nnz += 1\n        spjacrptr.append(nnz)\n',
+     "new": '        rows = [jacrhs[r * n_eqns : (r + 1) * n_eqns] for r in range(n_eqns)]\n        for r, rowdata in enumerate(rows):\n            spjacrptr.append(len(spjacdata))\n            for col, elem in enumerate(rowdata):\n                if elem != "0.0":\n                    spjaccval.append(col)\n                    spjacdata.append(elem)\n        nnz = len(spjacdata)\n        spjacrptr.append(nnz)\n'},
+    {"name": "sentinel-as-named-class-and-module-constant", "edits": [
+        {"file": T, "old": "    @dataclass\n    class GeneralInfo:\n", "new": "    _ZERO = \"0.0\"\n\n    @dataclass\n    class GeneralInfo:\n"},
+        {"file": T, "old": "\nclass TemplateLoader:\n", "new": "\n_NO_TERM = \"0.0\"\n\n\nclass TemplateLoader:\n"},
+        {"file": T, "old": "        jacrhs = [\"0.0\"] * n_eqns * n_eqns", "new": "        jacrhs = [self._ZERO] * n_eqns * n_eqns"},
+        {"file": T, "old": "                    \"0.0\"\n                    if jacrhs[n_spec * n_eqns + si] == \"0.0\"", "new": "                    _NO_TERM\n                    if jacrhs[n_spec * n_eqns + si] == TemplateLoader._ZERO"},
+        {"file": T, "old": "                if elem != \"0.0\":", "new": "                if elem != self._ZERO:"},
+        {"file": T, "old": "pattern = [0 if j == \"0.0\" else 1 for j in jacrhs]", "new": "pattern = [0 if j == _NO_TERM else 1 for j in jacrhs]"}]},
+    {'name': 'dense-decode-index-minus-one-floordiv-remainder-by-subtraction', 'file': JAC, 'old': '    {% for r in ode.jac.rhs -%}\n    {% set neqns = ode.jac.nrow -%}\n    {% if r != "0.0" -%}\n    IJth(jmatrix, {{ (loop.index0/neqns) | int }}, {{ loop.index0%neqns }}) = {{ r | stmwrap(80, 24)}};\n    {% endif -%}\n    {% endfor %}\n', 'new': '    {% set neqns = ode.jac.nrow -%}\n    {% for r in ode.jac.rhs -%}\n    {% if r != "0.0" -%}\n    {% set flat = loop.index - 1 -%}\n    IJth(jmatrix, {{ flat // neqns }}, {{ flat - neqns * (flat // neqns) }}) = {{ r | stmwrap(80, 24)}};\n    {% endif -%}\n    {% endfor %}\n'},
+    {'name': 'odeint-sentinel-test-swapped-arms', 'file': ODEINT, 'old': '    {% for r in ode.jac.rhs -%}\n    {% set neqns = ode.jac.nrow -%}\n    {% if r != "0.0" -%}\n    j({{ (loop.index0/neqns) | int }}, {{ loop.index0%neqns }}) = {{ r | stmwrap(80, 24)}};\n    {% endif -%}\n    {% endfor %}\n', 'new': '    {% for r in ode.jac.rhs -%}\n    {% set neqns = ode.jac.nrow -%}\n    {% if r == "0.0" -%}\n    {% else -%}\n    j({{ (loop.index0/neqns) | int }}, {{ loop.index0%neqns }}) = {{ r | stmwrap(80, 24)}};\n    {% endif -%}\n    {% endfor %}\n'},
+    {'name': 'odeint-rows-by-batch', 'file': ODEINT, 'old': '    {% for r in ode.jac.rhs -%}\n    {% set neqns = ode.jac.nrow -%}\n    {% if r != "0.0" -%}\n    j({{ (loop.index0/neqns) | int }}, {{ loop.index0%neqns }}) = {{ r | stmwrap(80, 24)}};\n    {% endif -%}\n    {% endfor %}\n', 'new': '    {% for rowterms in ode.jac.rhs | batch(ode.jac.nrow) -%}\n    {% set irow = loop.index0 -%}\n    {% for r in rowterms -%}\n    {% if r != "0.0" -%}\n    j({{ irow }}, {{ loop.index0 }}) = {{ r | stmwrap(80, 24)}};\n    {% endif -%}\n    {% endfor -%}\n    {% endfor %}\n'},
+    {'name': 'csr-rows-by-start-offset-range-step', 'file': T, 'old': '        nnz = 0\n\n        for row in range(n_eqns):\n            spjacrptr.append(nnz)\n            for col in range(n_eqns):\n                elem = jacrhs[row * n_eqns + col]\n                if elem != "0.0":\n                    spjaccval.append(col)\n                    spjacdata.append(f"{elem}")\n                    nnz += 1\n        spjacrptr.append(nnz)\n', 'new': '        for rstart in range(0, n_eqns * n_eqns, n_eqns):\n            spjacrptr.append(len(spjacdata))\n            for col, elem in enumerate(jacrhs[rstart : rstart + n_eqns]):\n                if elem == "0.0":\n                    continue\n                spjaccval.append(col)\n                spjacdata.append(f"{elem}")\n        nnz = len(spjacdata)\n        spjacrptr.append(nnz)\n'},
+    {'name': 'csr-and-pattern-rows-cut-by-a-helper-method', 'edits': [{'file': T, 'old': '    def _prepare_renorm_content(self, netinfo: NetworkInfo) -> RenormContent:\n', 'new': '    @staticmethod\n    def _matrix_rows(flat, n):\n        return [flat[row * n : (row + 1) * n] for row in range(n)]\n\n    def _prepare_renorm_content(self, netinfo: NetworkInfo) -> RenormContent:\n'}, {'file': T, 'old': '        nnz = 0\n\n        for row in range(n_eqns):\n            spjacrptr.append(nnz)\n            for col in range(n_eqns):\n                elem = jacrhs[row * n_eqns + col]\n                if elem != "0.0":\n                    spjaccval.append(col)\n                    spjacdata.append(f"{elem}")\n                    nnz += 1\n        spjacrptr.append(nnz)\n', 'new': '        for rowdata in self._matrix_rows(jacrhs, n_eqns):\n            spjacrptr.append(len(spjaccval))\n            for col, elem in enumerate(rowdata):\n                if elem != "0.0":\n                    spjaccval.append(col)\n                    spjacdata.append(f"{elem}")\n        nnz = len(spjaccval)\n        spjacrptr.append(nnz)\n'}, {'file': T, 'old': '            pattern = [0 if j == "0.0" else 1 for j in jacrhs]\n\n            rowpattern = []\n            for row in range(n_eqns):\n                rowdata = pattern[row * n_eqns : (row + 1) * n_eqns]\n                rowpattern.append(" ".join(str(e) for e in rowdata))\n', 'new': '            rowpattern = [\n                " ".join("0" if j == "0.0" else "1" for j in rowdata)\n                for rowdata in self._matrix_rows(jacrhs, n_eqns)\n            ]\n'}]},
     {"name": 'pattern-marks-on-the-slice', "file": T, "old": '            pattern = [0 if j == "0.0" else 1 for j in jacrhs]\n\n            rowpattern = []\n            for row in range(n_eqns):\n                rowdata = pattern[row * n_eqns : (row + 1) * n_eqns]\n                rowpattern.append(" ".join(str(e) for e in rowdata))\n',
      "new": '            rowpattern = [\n                " ".join("0" if elem == "0.0" else "1" for elem in jacrhs[row * n_eqns : (row + 1) * n_eqns])\n                for row in range(n_eqns)\n            ]\n'},
     {"name": 'pattern-string-flags-rowstarts', "file": T, "old": '            pattern = [0 if j == "0.0" else 1 for j in jacrhs]\n\n            rowpattern = []\n            for row in range(n_eqns):\n                rowdata = pattern[row * n_eqns : (row + 1) * n_eqns]\n                rowpattern.append(" ".join(str(e) for e in rowdata))\n',
